@@ -240,6 +240,10 @@ func c28Exec(op string) string {
 	case "reset":
 		newWorld()
 		return "ok"
+	case "block":
+		// publisher step: a block made of the named pool transactions is created and executed; nothing else
+		// (no pool refresh) happens, so conflicting transactions stay in the pool as stale ones
+		return cur.blockOf(strings.Split(toks["t"], ","))
 	case "http":
 		out := doHTTP(toks)
 		if strings.HasPrefix(out, "panic") || out == "hang" {
